@@ -20,7 +20,7 @@ RULE = ('multi-segment multi-chunk model files with several channels; non-trivia
 ASSUMPTIONS = ['"constant number of bytes per segment touched" = the 4-byte segment tag the reader verifies before reading a segment',
                'an empty request may touch at most the one chunk containing its offset']
 REQUIRED = ['daqmx_files', 'requests', 'reads_checked', 'cached_index_checked', 'bytes_allowed', 'requests_partial']
-N = {'quick': 800, 'thorough': 15000}
+N = {'quick': 800, 'thorough': 200000}
 
 
 def gen_cases(tier, seed):
